@@ -1,6 +1,6 @@
 (* C04 — Room membership is consistent for the server and for every observer. *)
 From Coq Require Import List NArith Bool.
-From Verif Require Import model.Hub corr.Hub_preds proofs.Hub_wf proofs.Hub_corollaries proofs.Hub_refuted.
+From Verif Require Import model.Hub corr.Hub_preds proofs.Hub_wf proofs.Hub_corollaries proofs.Hub_refuted proofs.Hub_observers.
 Import ListNotations.
 Open Scope N_scope.
 
@@ -33,12 +33,67 @@ Proof. exact room_session_resolves. Qed.
 
 (* Observers: the unrestricted statement (every delivery order) is refuted — the joiner keeps a
    member that already left when the room subject overtakes its session subject (known finding
-   C04/observers/cross-subject-reorder).  In the order a FIFO bus produces, the same history is fine
-   (Example); for FIFO orders in general the observer clause is checked on every implementation
-   trace by P_C04 (observers_converge_fifo is not proved: partial). *)
+   C04/observers/cross-subject-reorder). *)
 Theorem C04_observers_converge_refuted :
   exists ops, h_bus (run_mode 2 (init [0; 0] false) ops) = [] /\ P_hub 4 (model_case 2 [0; 0] ops) = Some (18, 2).
 Proof. exact observers_converge_refuted. Qed.
+
+(* Observers, quiescent semantics (qstep: the step, then every queued publication in publication
+   order).  The view of a session is ghost state computed from the outputs alone: a connection's
+   messages belong to the session of the last hello reply written to it; a session's view is what
+   corr/Hub_preds.apply_view makes of the messages written to its connections (vrun).  For every
+   history in which each step's publications were delivered completely ("drained": the bus is empty
+   after every step), after every step: every live client session with a connection that is in room
+   k has reconstructed exactly the member list of k, one in no room has no view; a disconnected
+   session obtains the same once it has received what is queued for it. *)
+Theorem C04_observers_converge_quiescent : forall limits gated ops,
+  drained (init limits gated) ops ->
+  let st := vrun (init limits gated, g0) ops in
+  fst st = qrun (init limits gated) ops /\
+  observers_converged (fst st) (snd st) /\ observers_converged_queued (fst st) (snd st).
+Proof. exact observers_converge_quiescent. Qed.
+(* the hypothesis is satisfiable by a history with joins, a room change, a drop and a resume, virtual
+   sessions, a taken-over room session id, a room deletion and an expiry *)
+Theorem C04_observers_quiescent_example :
+  drained (init [0; 0] false) obs_ops /\
+  members_of (fst (vrun (init [0; 0] false, g0) obs_ops)) = [((0, 5), [2; 6; 7])].
+Proof. split; [exact obs_ops_drained|exact (proj2 obs_ops_views)]. Qed.
+(* without it (a step that publishes more than drain has fuel for): refuted, an artefact of the fuel *)
+Theorem C04_observers_quiescent_without_drained_refuted :
+  h_bus (qrun (init [0; 0] false) fuel_ops) = [] /\ drainedb (init [0; 0] false) fuel_ops = false /\
+  views_of (vrun (init [0; 0] false, g0) fuel_ops) = [(1, Some (6, [1; 2]), Some (0, 6)); (2, Some (5, [2]), Some (0, 5))] /\
+  members_of (fst (vrun (init [0; 0] false, g0) fuel_ops)) = [((0, 5), [2]); ((0, 6), [1])].
+Proof. exact observers_quiescent_without_drained_refuted. Qed.
+
+(* Observers, explicit deliveries in publication order (a FIFO bus).  Publication order alone is NOT
+   enough: a client that joins a room and changes to another one before its "session joined" notice
+   for the first room was processed is sent the first room's members afterwards and keeps them. *)
+Theorem C04_observers_fifo_refuted :
+  exists ops, Forall (fun o => match o with ODeliver pos => pos = 0 | _ => True end) ops /\
+              h_bus (run_mode 2 (init [0; 0] false) ops) = [] /\
+              P_hub 4 (model_case 2 [0; 0] ops) = Some (14, 2).
+Proof. exact observers_fifo_refuted. Qed.
+(* With that excluded (no session's join request is processed while a "session joined" notice for
+   that same session is still queued) every history with deliveries in publication order converges:
+   whenever the bus is empty the observers agree with the server. *)
+Theorem C04_observers_converge_fifo_guarded : forall limits gated ops,
+  fifo_guarded (init limits gated) ops ->
+  let st := vrun2 (init limits gated, g0) ops in
+  fst st = run (init limits gated) ops /\
+  (h_bus (fst st) = [] -> observers_converged (fst st) (snd st) /\ observers_converged_queued (fst st) (snd st)).
+Proof. exact observers_converge_fifo_guarded. Qed.
+(* in particular the quiescent semantics without a bound on the number of deliveries (every request
+   finds the bus empty, every delivery is the first queued publication) *)
+Theorem C04_observers_converge_fully_drained : forall limits gated ops,
+  fully_drained (init limits gated) ops ->
+  let st := vrun2 (init limits gated, g0) ops in
+  fst st = run (init limits gated) ops /\
+  (h_bus (fst st) = [] -> observers_converged (fst st) (snd st) /\ observers_converged_queued (fst st) (snd st)).
+Proof. exact observers_converge_fully_drained. Qed.
+Theorem C04_observers_fifo_example :
+  fifo_guarded (init [0; 0] false) fifo_ops /\ h_bus (run (init [0; 0] false) fifo_ops) = [] /\
+  views_of (vrun2 (init [0; 0] false, g0) fifo_ops) = [(1, Some (1, [1]), Some (0, 1)); (2, None, None)].
+Proof. exact fifo_ops_guarded. Qed.
 
 Print Assumptions C04_invariant_every_history_every_delivery_order.
 Print Assumptions C04_invariant_quiescent_histories.
@@ -47,3 +102,10 @@ Print Assumptions C04_at_most_one_room.
 Print Assumptions C04_no_empty_room.
 Print Assumptions C04_room_session_resolves.
 Print Assumptions C04_observers_converge_refuted.
+Print Assumptions C04_observers_converge_quiescent.
+Print Assumptions C04_observers_quiescent_example.
+Print Assumptions C04_observers_quiescent_without_drained_refuted.
+Print Assumptions C04_observers_fifo_refuted.
+Print Assumptions C04_observers_converge_fifo_guarded.
+Print Assumptions C04_observers_converge_fully_drained.
+Print Assumptions C04_observers_fifo_example.
